@@ -192,6 +192,9 @@ func (s *Sim) deliver(id int, dup bool) {
 		return
 	}
 	dst.pendingIn++
+	if leaderOnly(m.Type) {
+		dst.leaderMsgs++
+	}
 	s.count("delivered/"+typ, 1)
 	if m.Type == pb.MsgSnap {
 		if snd := s.rep(m.From); snd != nil && snd.alive {
